@@ -39,14 +39,27 @@ const (
 )
 
 // fault kinds, in the order of the case index
-var kinds = []string{"eof", "wrbreak", "rdfail", "wrfail", "cancel-silent", "cancel-live", "cancel-blocked"}
+// "wrlost" is the half-dead connection: exactly the k-th Write fails, reads
+// keep working and the peer keeps answering as if everything had arrived.
+var kinds = []string{"eof", "wrbreak", "rdfail", "wrfail", "cancel-silent", "cancel-live", "cancel-blocked", "wrlost"}
 
 func byteKind(kind string) bool { return kind == "eof" || kind == "wrbreak" }
 
 // blockSize is the number of cases of one handshake: the golden run plus every
 // (kind, k) up to the fixed bounds.
 func blockSize(h *handshake) int {
-	return 1 + 2*h.MaxBytes + 5*h.MaxOps
+	if h.Expect == "free" {
+		return 1 // only the fault-free run is judged (no panic, no swallowed error)
+	}
+	n := 1
+	for _, kd := range kinds {
+		if byteKind(kd) {
+			n += h.MaxBytes
+		} else {
+			n += h.MaxOps
+		}
+	}
+	return n
 }
 
 // decode maps an offset inside a handshake's block to (kind, k); kind "golden"
@@ -277,7 +290,7 @@ func (r *run) execute() {
 		fp.WriteBreakAfter = r.f.K
 	case "rdfail":
 		fp.FailRead = r.f.K + 1
-	case "wrfail":
+	case "wrfail", "wrlost":
 		fp.FailWrite = r.f.K + 1
 	case "cancel-silent", "cancel-live":
 		fp.OnOp = r.f.K + 1
@@ -293,6 +306,7 @@ func (r *run) execute() {
 		r.lib = r.tls.lib
 	} else {
 		r.a.peer.Silent = r.silent.Load
+		r.a.peer.Lenient = r.f.Kind == "wrlost"
 		if r.f.Kind == "cancel-blocked" {
 			var once sync.Once
 			r.a.peer.OnCall = func(n int) {
@@ -435,7 +449,7 @@ func measure(r *run) *golden {
 	}
 	g.OK = r.returned && r.err == nil && r.sess != nil && r.sess.State()&xmpp.Ready != 0
 	if r.err != nil {
-		g.Err = r.err.Error()
+		g.Err, _ = hspeer.ErrText(r.err)
 	}
 	g.Steps = r.log.All()
 	return g
@@ -466,7 +480,7 @@ func extent(g *golden, kind string) int {
 		return g.W
 	case "rdfail":
 		return g.NR
-	case "wrfail":
+	case "wrfail", "wrlost":
 		return g.NW
 	case "cancel-silent", "cancel-live":
 		return g.NOps
@@ -532,7 +546,7 @@ func one(c *core.Case, h *handshake, f fault) {
 		} else {
 			c.Count("golden_within_bounds", 1)
 		}
-		c.Count("golden_fault_points", g.R+g.W+g.NR+g.NW+2*g.NOps+g.NCalls)
+		c.Count("golden_fault_points", g.R+g.W+g.NR+2*g.NW+2*g.NOps+g.NCalls)
 	}
 
 	r := newRun(h, f)
@@ -547,13 +561,14 @@ func one(c *core.Case, h *handshake, f fault) {
 		switch f.Kind {
 		case "rdfail":
 			active = nr >= f.K+1
-		case "wrfail":
+		case "wrfail", "wrlost":
 			active = nw >= f.K+1
 		case "cancel-silent", "cancel-live", "cancel-blocked":
 			active = r.cancelCalled.Load()
 		}
 	}
 
+	errText, errPanics := hspeer.ErrText(r.err)
 	st := uint8(0)
 	ready := false
 	if r.sess != nil {
@@ -568,7 +583,7 @@ func one(c *core.Case, h *handshake, f fault) {
 	case r.err == nil:
 		sm.Outcome = fmt.Sprintf("nil error, state %#x", st)
 	default:
-		sm.Outcome = fmt.Sprintf("error %q, state %#x", trunc(r.err.Error(), 100), st)
+		sm.Outcome = fmt.Sprintf("error %q, state %#x", trunc(errText, 100), st)
 	}
 	sm.Steps = r.log.All()
 	c.Sample(sm)
@@ -589,6 +604,14 @@ func one(c *core.Case, h *handshake, f fault) {
 	// --- no panic, whatever the fault
 	if r.panicKey != "" {
 		c.Violate(r.panicKey, "%s %s k=%d: %s", h.Name, f.Kind, f.K, r.panicMsg)
+		return
+	}
+
+	// --- the error value itself must be usable: a non-nil error whose Error
+	// method panics (a nil *stanza.Error in an error interface) blows up in the
+	// first caller that logs it
+	if r.returned && errPanics {
+		c.Violate(fmt.Sprintf("errvalue:%T", r.err), "%s (%s, fault %s k=%d): the constructor returned a non-nil error of type %T whose Error method panics: %s", h.Name, h.Role, f.Kind, f.K, r.err, errText)
 		return
 	}
 
@@ -636,11 +659,11 @@ func one(c *core.Case, h *handshake, f fault) {
 			} else if r.stuck != "" {
 				c.Inconclusive("fault-free run of %s (%s k=%d) never returned: %s", h.Name, f.Kind, f.K, r.stuck)
 			} else {
-				c.Inconclusive("fault-free run of %s (%s k=%d) did not succeed: %v (state %#x); peer answered %d steps, pending %q", h.Name, f.Kind, f.K, r.err, st, peerDone(r), peerPending(r))
+				c.Inconclusive("fault-free run of %s (%s k=%d) did not succeed: %v (state %#x); peer answered %d steps, pending %q", h.Name, f.Kind, f.K, errText, st, peerDone(r), peerPending(r))
 			}
 		case "stepfail":
 			if len(failed) == 0 {
-				c.Inconclusive("fault-free run of %s logged no failing step (err %v)", h.Name, r.err)
+				c.Inconclusive("fault-free run of %s logged no failing step (err %v)", h.Name, errText)
 			} else {
 				c.Count("faultfree_stepfail_runs", 1)
 				if f.Kind == "golden" {
@@ -648,8 +671,26 @@ func one(c *core.Case, h *handshake, f fault) {
 				}
 			}
 			if r.returned && r.err != nil && ready {
-				c.Violate("readyerr:"+h.Key+":step-error", "%s: constructor returned error %q but the session is Ready (state %#x)", h.Name, r.err, st)
+				c.Violate("readyerr:"+h.Key+":step-error", "%s: constructor returned error %q but the session is Ready (state %#x)", h.Name, errText, st)
 			}
+		case "refused":
+			// the peer refuses (or answers wrongly) at the protocol level
+			switch {
+			case r.stuck != "":
+				c.Inconclusive("fault-free run of %s (%s k=%d) never returned: %s", h.Name, f.Kind, f.K, r.stuck)
+			case r.returned && r.err != nil && !ready:
+				c.Count("faultfree_refusal_runs", 1)
+				if f.Kind == "golden" {
+					c.Count("golden_ok", 1)
+					c.Count("refusal_shapes_failed_closed", 1)
+				}
+			default:
+				c.Violate("failopen:"+h.Key+":refusal", "%s (%s): the peer refused / answered wrongly (%s) but the constructor returned error=%v, state %#x; steps %+v", h.Name, h.Role, h.Note, errText, st, r.log.All())
+			}
+		case "free":
+			// outcome not demanded by the statement: observed only
+			c.Count(fmt.Sprintf("observed:%s:ready=%v", h.Key, r.err == nil && ready), 1)
+			c.Count("golden_ok", 1)
 		}
 		return
 	}
@@ -677,6 +718,14 @@ func one(c *core.Case, h *handshake, f fault) {
 	}
 	if (r.a.peer != nil && r.a.peer.GaveUp()) || (r.tls != nil && r.tls.gaveUp.Load()) {
 		c.Count("peer_gave_up", 1)
+	}
+	if f.Kind == "wrlost" {
+		if (r.a.peer != nil && r.a.peer.AnsweredUnearned() > 0) || (r.tls != nil && r.tls.skips.Load() > 0) {
+			c.Count("write_lost_but_peer_answered_anyway", 1)
+		}
+		if f.K == g.NW-1 {
+			c.Count("write_lost:last_write_of_handshake", 1)
+		}
 	}
 
 	if r.stuck != "" {
@@ -706,7 +755,7 @@ func one(c *core.Case, h *handshake, f fault) {
 		return
 	}
 	if ready {
-		c.Violate("readyerr:"+h.Key+":"+f.Kind, "%s (%s): fault %s at k=%d: constructor returned error %q but the session is Ready (state %#x)", h.Name, h.Role, f.Kind, f.K, r.err, st)
+		c.Violate("readyerr:"+h.Key+":"+f.Kind, "%s (%s): fault %s at k=%d: constructor returned error %q but the session is Ready (state %#x)", h.Name, h.Role, f.Kind, f.K, errText, st)
 		return
 	}
 	c.Count("failed_closed", 1)
@@ -769,13 +818,17 @@ func Prop() *core.Prop {
 		Run:        runCase,
 		Exhaustive: func(string) bool { return true },
 		Require: []string{"golden_ok", "golden_within_bounds", "fault_runs:eof", "fault_runs:wrbreak", "fault_runs:rdfail", "fault_runs:wrfail",
-			"fault_runs:cancel-silent", "fault_runs:cancel-live", "fault_runs:cancel-blocked", "cancellations_issued", "cancellations_that_reached_the_deadlines",
+			"fault_runs:cancel-silent", "fault_runs:cancel-live", "fault_runs:cancel-blocked", "fault_runs:wrlost", "write_lost_but_peer_answered_anyway", "write_lost:last_write_of_handshake", "refusal_shapes_failed_closed", "cancellations_issued", "cancellations_that_reached_the_deadlines",
 			"step_errors_logged", "step_errors_logged:negotiate", "step_errors_logged:list", "step_errors_logged:parse", "failed_steps_with_mask", "peer_gave_up", "failed_closed"},
 		Witnesses: map[string]func(*core.Case){
-			"swallow:voluntary:negotiate":  witness("volfail-init", "golden", 0),
-			"outlive:cancel:before-op":     witness("plain-init", "cancel-silent", 1),
-			"failopen:cancel:before-op":    witness("plain-init", "cancel-live", 2),
-			"outlive:cancel:while-blocked": witness("plain-init", "cancel-blocked", 0),
+			"swallow:voluntary:negotiate":       witness("volfail-init", "golden", 0),
+			"outlive:cancel:before-op":          witness("plain-init", "cancel-silent", 1),
+			"failopen:cancel:before-op":         witness("plain-init", "cancel-live", 2),
+			"outlive:cancel:while-blocked":      witness("plain-init", "cancel-blocked", 0),
+			"errvalue:*stanza.Error":            witness("bind-error-nochild-init", "golden", 0),
+			"failopen:saslbind-recv:wrlost":     witness("saslbind-recv", "wrlost", 2),
+			"failopen:ws-saslbind-recv:wrlost":  witness("ws-saslbind-recv", "wrlost", 2),
+			"panic:negotiateClient:type-assert": witness("sasl-extra-advert-init", "golden", 0),
 		},
 	}
 }
